@@ -137,6 +137,14 @@ def main():
     props_module = prop.get("props_module", "YaegiVerif.Props." + pid)
     checker_cmd = f"cd {LEAN} && lake build {props_module} && lake env lean Audit/{pid}.lean"
 
+    # the Go build cache grows by hundreds of MB per reference batch: trim it before the disk fills up
+    try:
+        st = os.statvfs(os.path.expanduser("~"))
+        if st.f_bavail * st.f_frsize < 40 * (1 << 30):
+            sh(["go", "clean", "-cache"], env=GOENV, timeout=3600)
+    except Exception:  # noqa
+        pass
+
     # ---- 1+2: extract and prove, serialised by a lock (shared lake build directory)
     with open(os.path.join(VERIF, ".lock"), "w") as lock:
         fcntl.flock(lock, fcntl.LOCK_EX)
